@@ -7,9 +7,10 @@ exporter call in progress — never a new API call) is enabled. The exporter is 
 import Otel.C01.Lemmas3
 namespace Otel.C01
 
-/-- labels that are not new API calls (`accept`, `ffCall`, `sdCall`) nor context cancellation -/
+/-- labels that are not new API calls (`accept`, `endUnsampled`, `ffCall`, `sdCall`, `sdCallLate`) nor context
+cancellation -/
 def Lbl.internal : Lbl → Bool
-  | .accept _ | .ffCall _ | .sdCall | .ffCancel _ => false
+  | .accept _ | .endUnsampled _ | .ffCall _ | .sdCall | .sdCallLate _ | .ffCancel _ => false
   | _ => true
 
 theorem shutdown_progress_of_inv (s : St) (hc : InvC s) (hsd : s.sd ≠ .none) (hret : s.sdRetOk = false) :
@@ -18,7 +19,7 @@ theorem shutdown_progress_of_inv (s : St) (hc : InvC s) (hsd : s.sd ≠ .none) (
   cases hb : s.busy with
   | some who =>
     cases who with
-    | worker => exact ⟨.exportEnd, rfl, by simp [step, hb]⟩
+    | worker => exact ⟨.exportEnd true, rfl, by simp [step, hb]⟩
     | ff fid => exact ⟨.ffExportEndOk fid, rfl, by simp [step, hb]⟩
   | none =>
     cases hsdv : s.sd with
@@ -48,5 +49,17 @@ theorem shutdown_progress_of_inv (s : St) (hc : InvC s) (hsd : s.sd ≠ .none) (
             cases x with
             | span id => exact ⟨.wRecv, rfl, by simp [step, hw, hh, hq]⟩
             | marker fid => exact ⟨.wRecv, rfl, by simp [step, hw, hh, hq]⟩
+
+/-- the same for a Shutdown call that did not win `stopOnce`: while it has not returned, either the winner's
+call is still in progress (and can make progress by the lemma above) or `stopOnce` is done and the call returns -/
+theorem shutdown_progress_late (s : St) (hc : InvC s) (hl : InvL s) (c : SD) (hmem : c ∈ s.sds)
+    (hret : c.ret = false) : ∃ l, l.internal = true ∧ (step s l).isSome = true := by
+  cases hr : s.sdRetOk with
+  | false => exact shutdown_progress_of_inv s hc (hl.called (List.ne_nil_of_mem hmem)) hr
+  | true =>
+    refine ⟨.sdReturnLate c.cid, rfl, ?_⟩
+    simp only [step, hr, List.any_eq_true, decide_eq_true_eq, true_and]
+    rw [if_pos ⟨c, hmem, rfl, hret⟩]
+    rfl
 
 end Otel.C01
